@@ -33,27 +33,33 @@ package handler
 //@ event RtRestoreError = call core.(*Runtime).RestoreError
 //@ event RtRestoreErrorRefused = ret core.(*Runtime).RestoreError when r0 != nil
 //@ event RtResponseSent = call core.(*Runtime).ResponseSent
+//@ event NoRuntime = ret core.(RegistrationService).GetRuntime when r0 == nil
 
 //@ spec noSideEffects() bool = delta(SendResponse) == 0 && delta(SendError) == 0 && delta(SendInitError) == 0 && delta(StoreTrace) == 0 && delta(RtResponseSent) == 0 && delta(RenderEvent) == 0 && delta(RenderAccepted) == 0
 
-// C12: the transition comes first; a refused call is answered 403 and nothing else happens.
+// C12: the transition comes first; a refused call is answered 403 and nothing else happens. A call made while no runtime is
+// registered (before the runtime is launched, after a reset) is illegal in that state and refused in the same way.
 
 //@ func (*invocationNextHandler).ServeHTTP
+//@   ensures [C12: a-call-without-a-runtime-is-refused-403] delta(NoRuntime) == 1 ==> delta(RtNext) == 0 && delta(Render403) == 1 && noSideEffects()
 //@   ensures [one-transition] delta(RtNext) == 1
 //@   ensures [refused-403] delta(RtNextRefused) == 1 ==> delta(Render403) == 1 && noSideEffects()
 //@   ensures [accepted-renders-event] delta(RtNextRefused) == 0 ==> delta(RenderEvent) == 1 && delta(Render403) == 0
 
 //@ func (*restoreNextHandler).ServeHTTP
+//@   ensures [C12: a-call-without-a-runtime-is-refused-403] delta(NoRuntime) == 1 ==> delta(RtRestoreNext) == 0 && delta(Render403) == 1 && noSideEffects()
 //@   ensures [one-transition] delta(RtRestoreNext) == 1
 //@   ensures [refused-403] delta(RtRestoreNextRefused) == 1 ==> delta(Render403) == 1 && noSideEffects()
 //@   ensures [accepted-renders-event] delta(RtRestoreNextRefused) == 0 ==> delta(RenderEvent) == 1 && delta(Render403) == 0
 
 //@ func (*restoreErrorHandler).ServeHTTP
+//@   ensures [C12: a-call-without-a-runtime-is-refused-403] delta(NoRuntime) == 1 ==> delta(RtRestoreError) == 0 && delta(Render403) == 1 && noSideEffects()
 //@   ensures [one-transition] delta(RtRestoreError) == 1
 //@   ensures [refused-403] delta(RtRestoreErrorRefused) == 1 ==> delta(Render403) == 1 && noSideEffects()
 //@   ensures [accepted-202] delta(RtRestoreErrorRefused) == 0 ==> delta(RenderAccepted) == 1 && delta(Render403) == 0
 
 //@ func (*invocationResponseHandler).ServeHTTP
+//@   ensures [C12: a-call-without-a-runtime-is-refused-403] delta(NoRuntime) == 1 ==> delta(RtResponse) == 0 && delta(Render403) == 1 && noSideEffects()
 //@   ensures [one-transition] delta(RtResponse) == 1
 //@   ensures [refused-403] delta(RtResponseRefused) == 1 ==> delta(Render403) == 1 && noSideEffects()
 //@   ensures [accepted-sends] delta(RtResponseRefused) == 0 ==> delta(Render403) == 0 && (delta(SendResponse) == 1 || delta(SendError) == 1)
@@ -64,6 +70,7 @@ package handler
 //@   ensures [the-body-is-handed-on-as-it-is] delta(SendResponse) == 1 ==> lastarg(SendResponse, 2).Payload == request.Body
 
 //@ func (*invocationErrorHandler).ServeHTTP
+//@   ensures [C12: a-call-without-a-runtime-is-refused-403] delta(NoRuntime) == 1 ==> delta(RtError) == 0 && delta(Render403) == 1 && noSideEffects()
 //@   ensures [one-transition] delta(RtError) == 1
 //@   ensures [refused-403] delta(RtErrorRefused) == 1 ==> delta(Render403) == 1 && noSideEffects()
 //@   ensures [accepted-sends] delta(RtErrorRefused) == 0 ==> delta(SendError) >= 1 && delta(Render403) == 0
@@ -75,6 +82,7 @@ package handler
 //@   ensures [oversize-413] delta(SendErrorTooLarge) == 1 && delta(SendErrorOK) == 1 ==> delta(RtResponseSent) == 1 && delta(Render413) == 1 && delta(RenderAccepted) == 0 && delta(RenderInterop) == 0
 
 //@ func (*initErrorHandler).ServeHTTP
+//@   ensures [C12: a-call-without-a-runtime-is-refused-403] delta(NoRuntime) == 1 ==> delta(RtInitError) + delta(RtRestoreError) == 0 && delta(Render403) == 1 && noSideEffects()
 //@   ensures [at-most-one-transition] delta(RtInitError) + delta(RtRestoreError) == 1
 //@   ensures [refused-403] delta(RtInitErrorRefused) == 1 || delta(RtRestoreErrorRefused) == 1 ==> delta(Render403) == 1 && noSideEffects()
 //@   ensures [accepted-init-error] delta(RtInitError) == 1 && delta(RtInitErrorRefused) == 0 ==> delta(SendInitError) == 1 && delta(Render403) == 0
